@@ -345,4 +345,20 @@ def tsvRows (src : Src α) (filtered : Bool) (mask : List Bool) (feats : List St
       some (fs, transpose (fts.map fun ft => if filtered then sel mask ft.rows else ft.rows))
     else none
 
+/-! ## chunked table writers
+
+`Export.tsv` writes the whole table with one `np.savetxt` call.  A memory-saving variant writes
+the selected events in chunks; whatever the chunk size, it has to produce the same rows. -/
+
+/-- `len(indices) // c` full chunks `indices[k*c:(k+1)*c]`, then the remaining selected events -/
+def tsvChunks {β : Type} (c : Nat) (idx : List Nat) (rowAt : Nat → β) : List (List β) :=
+  stacksFast c idx rowAt
+
+/-- the same loop, but the trailing partial chunk is only written if the *dataset size* `n` is
+not a multiple of `c` (instead of the number of selected events) -/
+def tsvChunksSizeTest {β : Type} (c n : Nat) (idx : List Nat) (rowAt : Nat → β) : List (List β) :=
+  let nfull := idx.length / c
+  ((List.range nfull).map fun kk => ((idx.take (c * (kk + 1))).drop (c * kk)).map rowAt) ++
+    (if n % c ≠ 0 then [(idx.drop (c * nfull)).map rowAt] else [])
+
 end DclabModel.Export
